@@ -14,7 +14,8 @@ class NcpSim:
         self.ez = ez
         self.version = version
         self.v14 = version >= 14
-        self.eui64 = eui64 or t.EUI64.convert("00:0d:6f:00:0a:90:69:e7")
+        self.factory_eui64 = eui64 or t.EUI64.convert("00:0d:6f:00:0a:90:69:e7")
+        self.eui64 = self.factory_eui64     # the address in use: taken from the tokens at boot
         self.nv3_eui64 = nv3_eui64            # rewritable NV3 token for the EUI64 present?
         self.nv3_value = None
         self.config = {int(t.EzspConfigId.CONFIG_KEY_TABLE_SIZE): key_table_size,
@@ -48,6 +49,12 @@ class NcpSim:
         """RST: volatile state lost, non-volatile kept"""
         self.stack_up = False
         self.log.append(("reboot",))
+        # the EUI64 is read from the tokens at boot: the rewritable NV3 token if it holds an address, else the factory one
+        nv = getattr(self, "nv3_value", None)
+        if self.nv3_eui64 and nv is not None and bytes(nv) != b"\xff" * 8:
+            self.eui64, _ = self.t.EUI64.deserialize(bytes(nv))
+        else:
+            self.eui64 = self.factory_eui64
 
     def bind(self, name, args, kwargs):
         tx = self.ez._protocol.COMMANDS[name][1]
@@ -120,9 +127,7 @@ class NcpSim:
 
     def c_setTokenData(self, a):
         data = bytes(a["token_data"])
-        self.nv3_value = data
-        if data != b"\xff" * 8:
-            self.eui64, _ = self.t.EUI64.deserialize(data)
+        self.nv3_value = data           # takes effect at the next boot
         return [self.st(True)]
 
     def c_getEui64(self, a):
